@@ -11,6 +11,14 @@ def hook_commits():
         return []
 
 CHECKS = {
+ "C13": dict(cat="exploration",
+   text="Real sessions under concurrent producers of four kinds (host sender clones, FsmExecutor::send_to_session, sibling sessions, timer threads), with and without seeded jitter at lock acquisitions; an offline checker over the recorded log decides exactly-once, per-sender order and non-overlap of macrosteps using unique event names; the number of distinct interleavings actually produced is measured.",
+   note="Trusted: rec.rs log (one global sequence), the unique-name construction. Only the interleavings the OS scheduler and the jitter produce are covered; HTTP producers are exercised in C20.",
+   tech="offline checker over recorded history (exactly-once, per-sender order, non-overlap) under stress + lock-acquisition jitter", ref="DESIGN.md §5 C13"),
+ "C17": dict(cat="exploration",
+   text="Stress topologies (rings, invoking states, timers, host threads starting sessions / sending / shutting down) run under the Verif_Hooks lock observer: lock-order edges per lock class are recorded and an online wait-for graph reports a cycle among blocked threads, i.e. an actual deadlock, at the moment it forms; afterwards every session must still be cancellable.",
+   note="Trusted: verif_sync hook + lockmon.rs. Only observed wait-for cycles are violations; predicted but unconfirmed lock-order inversions are listed in the evidence. Liveness is restated as bounded progress.",
+   tech="instrumented-mutex runtime monitor: lock-order graph + online wait-for cycle detection under stress and jitter", ref="DESIGN.md §5 C17"),
  "C11": dict(cat="exploration",
    text="Hostile inputs (fixed aliasing / extreme-operand corpus, grammar-derived over all operand types, token mutations, arbitrary Unicode) through seven entry points of the real parser / evaluator / data model, each in its own 2 MiB thread inside restartable child processes; monitors: panic hook + catch_unwind, the Verif_Hooks lock observer (relock by owner = self-deadlock, deterministic), post-state probe of the store, progress watchdog with address-space limit (non-termination, runaway allocation), and sub-process depth probes for stack exhaustion.",
    note="Trusted: lockmon.rs relock detection, the batch runner's attribution of a child death to the case in progress. Stack exhaustion on deep nesting / long chains is a recorded known finding.",
